@@ -246,15 +246,6 @@ Definition mask16 (pl : nat) (l : bytes) : bytes := mask_from pl 0 l.
 (* copy(prefix16, src): src padded with zeros to 16 bytes *)
 Definition pad16 (l : bytes) : bytes := firstn 16 (l ++ repeat 0 16)%list.
 
-Record ndp_st := mkSt {
-  st_mtu : N;
-  st_prefixes : list value;           (* in order of appearance *)
-  st_rdnss_lt : N; st_servers : list bytes;
-  st_slla : bytes; st_tlla : bytes;
-  st_dnssl_lt : N; st_domains : list bytes;
-  st_route : N * N * N * bytes }.     (* prefix length, preference, lifetime, prefix *)
-Definition st0 : ndp_st := mkSt 0 [] 0 [] [] [] 0 [] (0, 0, 0, []).
-
 (* DNSSL (RawOption copy V = x[2:]): label walk from i = 6; None = errDNSSLBadDomains *)
 Definition is_ascii (l : bytes) : bool := forallb (fun c => c <? 128) l.
 Definition has_dot_or_space (l : bytes) : bool := existsb (fun c => (c =? 46) || (c =? 32)) l.
@@ -346,22 +337,14 @@ Fixpoint ndp_decode (fuel : nat) (b : bytes) (st : ndp_st) : option ndp_st :=
       end
   end.
 
-(* the observed projection of NewOptions: a copied byte string that is empty shows as nil *)
-Definition vx (l : bytes) : value := match l with [] => VNil | _ => VX l end.
-Definition ndp_show (st : ndp_st) : value :=
-  VL [VN (st_mtu st); VL (st_prefixes st);
-      VL [VN (st_rdnss_lt st); VL (map vx (st_servers st))];
-      vx (st_slla st); vx (st_tlla st);
-      VL [VN (st_dnssl_lt st); VL (map vx (st_domains st))];
-      (let '(pl, prf, lt, pfx) := st_route st in VL [VN pl; VN prf; VN lt; vx pfx])].
 Definition ndp_value (b : bytes) : value :=
   match ndp_decode (S (List.length b)) b st0 with Some st => ndp_show st | None => VE end.
 
 (* if len(p) <= k { return NewOptions{}, nil }; return newParseOptions(p[k:]) *)
 Definition ndp_options_at (k : nat) : getter := fun p =>
   if Nat.leb (len p) k then Ok (ndp_show st0) else
-  b <- slfrom p k ;; r <- ndp_options (S (len b)) b 0 ;;
-  Ok (match r with VE => VE | _ => ndp_value (firstn (len b) (arr b)) end).
+  b <- slfrom p k ;; _ <- ndp_options (S (len b)) b 0 ;;       (* panics / termination: the slice-level walk *)
+  Ok (ndp_value (firstn (len b) (arr b))).                      (* value or error: the decoders on the bytes *)
 Definition RS_Options : getter := ndp_options_at 8.    (* repaired: was 24 *)
 Definition RA_Options : getter := ndp_options_at 16.
 
